@@ -108,6 +108,9 @@ impl<const L: usize> OrderBook<L> {
     pub fn verif_n_orders(&self) -> usize {
         self.orders.len()
     }
+    pub fn verif_add_trade_vol(&mut self, v: Vol) {
+        self.trade_vol = self.trade_vol.wrapping_add(v);
+    }
     pub fn verif_set_trade_vol(&mut self, v: Vol) {
         self.trade_vol = v;
     }
@@ -367,7 +370,14 @@ pub fn build<const N: usize, const L: usize>(p: &Plain<N>, ntrades: usize) -> Or
     }
     let state: OrderBookState<L> = OrderBookState { t: p.t, tick_size: p.tick, trade_vol: p.trade_vol, orders, trades, trading: p.trading };
     match OrderBook::<L>::try_from(state) {
-        Ok(b) => b,
+        Ok(mut b) => {
+            let ahead = any_u64();
+            assume(ahead < Nanos::MAX - 8);
+            if ahead > b.next_queue_time {
+                b.next_queue_time = ahead;
+            }
+            b
+        }
         Err(_) => {
             assume(false);
             unreachable!()
@@ -851,6 +861,7 @@ pub fn post_checks<const N: usize, const L: usize>(b: &OrderBook<L>, pre: &Plain
     }
     if mask & G_INDEX != 0 {
         vcheck!(index_equals_reload::<N, L>(b), "INDEX.side_indexes_equal_rebuild_from_orders");
+        vcheck!(queue_stamps_ok(b), "INDEX.next_queue_time_after_every_resting_key");
     }
     if mask & G_VIEWS != 0 {
         vcheck!(c02_views_ok::<N, L>(b), "VIEWS.equal_recomputation_from_orders");
@@ -1176,6 +1187,46 @@ pub fn step_create<const N: usize, const L: usize>(m: usize, cfg: GenCfg) {
     core::mem::forget(twin);
 }
 
+/// C07 (core): loading a snapshot.  `try_from(OrderBookState)` is what deserialisation runs after
+/// the field-by-field decode: for an arbitrary valid order table the loaded book carries every
+/// scalar, every order record WITH its stored queue key and every trade unchanged, both side indexes
+/// hold exactly the active orders under those keys, and every view equals the recomputation.
+pub fn step_reload<const N: usize, const L: usize>(m: usize, cfg: GenCfg) {
+    let p: Plain<N> = gen_plain::<N>(m, cfg);
+    let (book, old) = build_with_log::<N, L>(&p, cfg.ntrades);
+    let mut same = book.orders.len() == m;
+    let mut i = 0;
+    while i < N {
+        if i < m && i < book.orders.len() {
+            same &= order_eq(&book.orders[i].order, &p.e[i].order) && key_eq(&book.orders[i].key, &p.e[i].key);
+        }
+        i += 1;
+    }
+    vcheck!(same, "RELOAD.order_records_and_stored_queue_keys_preserved");
+    vcheck!(book.t == p.t && book.tick_size == p.tick && book.trade_vol == p.trade_vol && book.trading == p.trading, "RELOAD.time_tick_counter_flag_preserved");
+    vcheck!(book.trades.len() == cfg.ntrades && old_trades_unchanged(&book, cfg.ntrades, &old), "RELOAD.trade_log_preserved");
+    vcheck!(index_consistent::<N, L>(&book, &p), "RELOAD.side_indexes_hold_exactly_the_active_orders_under_their_keys");
+    vcheck!(c02_views_ok::<N, L>(&book), "RELOAD.every_view_equals_recomputation");
+    vcheck!(queue_stamps_ok(&book), "RELOAD.next_queue_time_after_every_resting_key");
+    let v = views::<N, 1>(&p);
+    vcover!(v.bid_vol > 0 && v.ask_vol > 0, "cover.two_sided_book");
+    vcover!(p.e[0].order.status == Status::New && active(&p.e[1]), "cover.unplaced_and_active_orders_present");
+    core::mem::forget(book);
+}
+
+/// the book's next queue time lies after every resting order's (representation invariant)
+pub fn queue_stamps_ok<const L: usize>(b: &OrderBook<L>) -> bool {
+    let mut ok = true;
+    let mut i = 0;
+    while i < b.orders.len() {
+        if active(&b.orders[i]) {
+            ok &= b.orders[i].key.2 < b.next_queue_time;
+        }
+        i += 1;
+    }
+    ok
+}
+
 /// place_order(a) on an arbitrary existing entry (any status: includes the double-place no-op)
 pub fn step_place_existing<const N: usize, const L: usize>(m: usize, cfg: GenCfg, mask: u32, only_noop: bool) {
     let p: Plain<N> = gen_plain::<N>(m, cfg);
@@ -1331,6 +1382,7 @@ pub fn step_admin<const N: usize, const L: usize>(m: usize, cfg: GenCfg) {
     }
     vcheck!(snapshot_equal::<N, L>(&book, &exp, cfg.ntrades, &old, false), "ADMIN.changes_nothing_else");
     vcheck!(index_equals_reload::<N, L>(&book), "INDEX.side_indexes_equal_rebuild_from_orders");
+    vcheck!(queue_stamps_ok(&book), "INDEX.next_queue_time_after_every_resting_key");
     vcover!(which == 0, "cover.set_time");
     vcover!(which == 3 && p.trade_vol > 0, "cover.reset_nonzero");
     core::mem::forget(book);
@@ -1522,6 +1574,12 @@ vharnesses! {
     // modify_order with an ARBITRARY new price (isolates the finding C12.modify_offgrid_price)
     #[cfg_attr(kani, kani::unwind(4))]
     fn c12_modify_any_price_tick3_m2() { step_modify::<3, 2>(2, GenCfg { tick: 3, ..OFF }, G_GRID, 2, true) }
+
+    // ---- C07: loading a snapshot (try_from) on an arbitrary order table
+    #[cfg_attr(kani, kani::unwind(4))]
+    fn c07_reload_m2() { step_reload::<3, 2>(2, LOG1) }
+    #[cfg_attr(kani, kani::unwind(5))]
+    fn c07_reload_m3() { step_reload::<4, 2>(3, LOG1) }
 
     // ---- C05: ties (same side, price, timestamp)
     #[cfg_attr(kani, kani::unwind(4))]
